@@ -220,6 +220,76 @@ def loop_header_positions(masked_body):
     return res
 
 
+def flatten_contract(text):
+    """Split blocks
+           ANT ==> {            |   ({
+               let x = ..;      |       let x = ..;
+               &&& c1 // @P l1  |       &&& c1 // @P l1
+               &&& c2 // @Q l2  |       &&& c2 // @Q l2
+           },                   |   }),
+    into one top-level clause per `&&&` conjunct (the lets are repeated).  Purely syntactic; the conjunction is
+    unchanged.  It makes the verifier report each labelled conjunct on its own, so a failure is attributed to the
+    properties of that conjunct only, with or without --expand-errors."""
+    lines = text.split('\n')
+    out, i = [], 0
+    while i < len(lines):
+        ln = lines[i]
+        m = re.match(r'^(\s*)(.*==> \{|\(\{)\s*$', ln)
+        if not m:
+            out.append(ln)
+            i += 1
+            continue
+        ind = m.group(1)
+        close_pat = re.compile(r'^' + re.escape(ind) + r'\}\)?,\s*(//.*)?$')
+        j = i + 1
+        while j < len(lines) and not close_pat.match(lines[j]):
+            j += 1
+        if j >= len(lines):
+            out.append(ln)
+            i += 1
+            continue
+        body = lines[i + 1:j]
+        inner = ind + '    '
+        lets, conj, cur, ok = [], [], None, True
+        k = 0
+        while k < len(body):
+            b = body[k]
+            if b.startswith(inner + '&&&'):
+                cur = [b]
+                conj.append(cur)
+            elif cur is not None:
+                cur.append(b)
+            elif b.startswith(inner + 'let ') or (lets and not lets[-1].rstrip().endswith(';')):
+                lets.append(b)
+            elif b.strip() == '' or b.strip().startswith('//'):
+                lets.append(b)
+            else:
+                ok = False
+                break
+            k += 1
+        if not ok or len(conj) < 2:
+            out.append(ln)
+            i += 1
+            continue
+        is_paren = m.group(2) == '({'
+        for c in conj:
+            first = c[0].replace('&&&', '   ', 1)
+            if is_paren:
+                out.append(ind + '({')
+                out.extend(lets)
+                out.append(first)
+                out.extend(c[1:])
+                out.append(ind + '}),')
+            else:
+                out.append(ln)
+                out.extend(lets)
+                out.append(first)
+                out.extend(c[1:])
+                out.append(ind + '},')
+        i = j + 1
+    return '\n'.join(out)
+
+
 def build_fn(em, src, span, qual, subs, retname='r', declared_only=False):
     """Emit function text = signature (+ named return) + contract + body with splices."""
     text = src.text[span[0]:span[1]]
@@ -285,7 +355,7 @@ def build_fn(em, src, span, qual, subs, retname='r', declared_only=False):
         em.emit(a.arg, fn=qual, kind='attr')
     em.emit(sig, fn=qual, kind='sig')
     for d in subs.get('contract', []):
-        em.emit('\n'.join(d.payload).rstrip('\n'), fn=qual, kind='contract')
+        em.emit(flatten_contract('\n'.join(d.payload).rstrip('\n')), fn=qual, kind='contract')
     if body is None:
         em.emit(';', fn=qual, kind='sig')
         em.functions[qual]['last_line'] = len(em.lines)
@@ -299,7 +369,7 @@ def build_fn(em, src, span, qual, subs, retname='r', declared_only=False):
         n = int(d.arg)
         if n > len(loops):
             raise LostAnchor(f'{qual}: loop {n} not found ({len(loops)} loops)')
-        splices.append((loops[n - 1], '\n' + '\n'.join(d.payload).rstrip('\n') + '\n'))
+        splices.append((loops[n - 1], '\n' + flatten_contract('\n'.join(d.payload).rstrip('\n')) + '\n'))
     for d in subs.get('hint', []):
         if d.arg.strip() == 'start':
             # at the very beginning of the body (after the R4 `let mut this = self;` line if present)
